@@ -213,6 +213,21 @@ pub fn gen_string(rng: &mut Rng, max_len: usize) -> String {
         }
         return s;
     }
+    // text as it comes from a shell, a config file or a log: quoted, escaped, newline-terminated
+    if rng.chance(1, 40) {
+        let core: String = (0..rng.range_usize(0, 4)).map(|_| gen_char(rng)).collect();
+        return match rng.below(9) {
+            0 => format!("\"{core}\""),
+            1 => format!("'{core}'"),
+            2 => format!("{core}\n"),
+            3 => format!("{core}\r\n"),
+            4 => format!("{core}\\n"),
+            5 => "\"\"".to_string(),
+            6 => format!("\\t{core}\\\\"),
+            7 => format!("\"{core}"),
+            _ => format!("{core}\r"),
+        };
+    }
     let mut s = String::new();
     if rng.chance(1, 3) {
         for _ in 0..rng.range_usize(1, 3) {
